@@ -6,6 +6,9 @@ D10  a projection drops a column an upstream sort still needs (compound SELECT o
 D23  backtracking a projection past an existing projection replaces the latter by Identity; when that projection
      hid a column which a later calculation re-defines, the hidden column leaks back and the re-applied calculation
      finds its tag already present.
+D25  Processor.process prunes a statically empty chain operand; the sort that sat on the compound SELECT is
+     re-applied to a plain SELECT where later calculations / selections no longer start a new query level, and the
+     join / chain / materialization above now refuses with the row-order-loss error - inside process().
 D11  a chain operand that is itself a chain compiles to a parenthesised compound SELECT, which SQLite rejects;
      the SQL text is pinned by tests/test_sql_engine.py::test_chains so it cannot be repaired here.
 """
@@ -57,6 +60,39 @@ def trig_recalculated_hidden_tag(prog, leaves):
         if n[0] == "calc":
             for m in walk(n[1]):
                 if m is not n[1] and n[2] in schema(m, leaves):
+                    return True
+    return False
+
+
+def _statically_empty(node, leaves):
+    """Sub-programs the library knows to be empty when the tree is built (max_rows == 0)."""
+    k = node[0]
+    if k == "leaf":
+        leaf = leaves[node[1]]
+        return leaf[4] == "doomed" or (leaf[4] == "data" and leaf[5][1] == 0)
+    if k == "slice":
+        return (node[3] is not None and node[3] <= node[2]) or _statically_empty(node[1], leaves)
+    if k in ("calc", "proj", "sel", "dedup", "sort", "mat", "xfer"):
+        return _statically_empty(node[1], leaves)
+    if k == "chain":
+        return _statically_empty(node[1], leaves) and _statically_empty(node[2], leaves)
+    if k in ("join", "joinx"):
+        return _statically_empty(node[1], leaves) or _statically_empty(node[2], leaves)
+    return False
+
+
+def trig_sorted_chain_with_empty_operand(prog, leaves):
+    """A sort over a chain one of whose operands is statically empty, itself below a binary operation or a
+    materialization: Processor.process prunes the empty chain operand, the re-applied sort is then no longer
+    separated from the downstream operations by the compound SELECT's extra query level, and the row-order-loss
+    check fires inside process()."""
+    def pruned_chain_below(n):
+        return any(m[0] == "chain" and (_statically_empty(m[1], leaves) != _statically_empty(m[2], leaves)) for m in walk(n))
+
+    for n in walk(prog):
+        if n[0] in ("chain", "join", "mat"):
+            for c in children(n):
+                if any(m[0] == "sort" and pruned_chain_below(m[1]) for m in walk(c)):
                     return True
     return False
 
